@@ -90,7 +90,7 @@ def gen_function(contract, contracts, known=()):
     """symbolically execute the real function under its contract -> FuncReport"""
     rep = FuncReport(contract.key)
     interp0 = new_interp(contracts)
-    f = interp0.resolve(contract.key)
+    f = interp0.resolve(contract.key, raw=True)
     if isinstance(f, X.Closure):
         raise CheckerFault(f"{contract.key}: decorated function resolved to a closure; give the undecorated name")
     if not isinstance(f, X.RepoFunc):
@@ -115,7 +115,7 @@ def gen_function(contract, contracts, known=()):
         interp.current_target = contract.key
         if contract.setup:
             contract.setup(interp)
-        f = interp.resolve(contract.key)
+        f = interp.resolve(contract.key, raw=True)
         explorer = X.Explorer()
 
         def body(path, interp=interp, f=f, specs=specs):
@@ -123,6 +123,7 @@ def gen_function(contract, contracts, known=()):
             path.interp = interp
             interp.depth = 0
             interp.call_log = []
+            S.GHOST["fft"] = []
             interp.spec = 0
             V.reset_fresh()
             bound = {n: s.fresh(n, path) for n, s in specs.items()}
@@ -161,7 +162,9 @@ def gen_function(contract, contracts, known=()):
                     emit_structured(interp, contract, path, name, text, bound, result)
                     continue
                 g = contract.eval_clause(interp, text, bound, {"result": result})
-                path.oblige(f"ensures.{name}", g, {"kind": "ensures", "clause": text, "clause_name": name})
+                nat = (contract.native or {}).get(name)
+                path.oblige(f"ensures.{name}", g, {"kind": "ensures", "clause": nat or text, "clause_name": name,
+                                                   "symbolic_clause": text})
             path.oblige("canary", False, {"kind": "canary"})
             return result
 
@@ -302,7 +305,7 @@ def build_replay(pid, contract, ob_name, meta, model, verdict_raw):
             "    raised = e",
             "print('result:', result if raised is None else None, '| raised:', repr(raised))",
             "env = dict(HELPERS); env.update(getattr(_c, 'native_helpers', None) or _c.helpers); env.update(args); env['result'] = result",
-            "env.update({'max': max, 'min': min, 'abs': abs, 'len': len, 'all': all, 'any': any, 'int': int, 'float': float, 'round': round, 'slice': slice, 'tuple': tuple, 'zip': zip, 'range': range, 'sum': sum, 'isinstance': isinstance})",
+            "env.update({'np': np, 'max': max, 'min': min, 'abs': abs, 'len': len, 'all': all, 'any': any, 'int': int, 'float': float, 'round': round, 'slice': slice, 'tuple': tuple, 'zip': zip, 'range': range, 'sum': sum, 'isinstance': isinstance})",
         ]
         clause = meta.get("clause", "")
         if meta.get("qvars"):
